@@ -51,6 +51,7 @@ The full data structure is
 
 """
 
+import itertools
 import random
 import sys
 from pprint import pprint
@@ -94,6 +95,12 @@ class LazyCall:
     def batch(self, batch, axis=0):
         return self.as_dataset(batch)
 
+    def _extra_batches(self):
+        if not self.extra:
+            # nothing to split: follow the data batches, however many there are
+            return itertools.repeat({})
+        return split_generator(self.extra, self.batch_size)
+
     def __iter__(self):
         assert self.batch_size is not None, ""
         if (
@@ -102,18 +109,18 @@ class LazyCall:
         ):
             for i, j in zip(
                 self.cached_batch[self.batch_size],
-                split_generator(self.extra, self.batch_size),
+                self._extra_batches(),
             ):
                 yield {**i, **j}
         elif isinstance(self.x, LazyCall):
             for i, j in zip(
-                self.x, split_generator(self.extra, self.batch_size)
+                self.x, self._extra_batches()
             ):
                 yield {**self.f(i, *self.args, **self.kwargs), **j}
         else:
             for i, j in zip(
                 split_generator(self.x, self.batch_size),
-                split_generator(self.extra, self.batch_size),
+                self._extra_batches(),
             ):
                 yield {**self.f(i, *self.args, **self.kwargs), **j}
 
